@@ -188,6 +188,20 @@ Theorem c20_resume_has_checkpoint_sync :
 Proof. exact sync_resume_has_checkpoint. Qed.
 Print Assumptions c20_resume_has_checkpoint_sync.
 
+(* DEHB (dehb_sched: the bracket manager shared with synchronous Hyperband, pre-allocated rungs,
+   PAUSE only in the first bracket and only with support_pause_resume, STOP everywhere else,
+   promotion of slot i of a non-base rung of the first bracket = resume of entry i of the top list
+   of the previous rung, new trials otherwise), for every rung table, number of brackets per
+   iteration, support_pause_resume on/off, schedule, batch order and failure pattern: every
+   resume_trial(i) is preceded by no delete_checkpoint(i).  Invariant dehb_inv: a job running for
+   a bracket other than the first one is not a trial kept by the first bracket. *)
+Theorem c20_resume_has_checkpoint_dehb :
+  forall c tbl mx support its pre i post, speculative c = false ->
+    run dehb_sched c (init (dehb0 tbl mx support)) its = pre ++ EResume i :: post ->
+    forall w, ~ In (EDelete i w) pre.
+Proof. exact dehb_resume_has_checkpoint. Qed.
+Print Assumptions c20_resume_has_checkpoint_dehb.
+
 (* the kernel fact behind it: what a bracket reports when a rung completes is disjoint from the
    rung of promoted trials it opens *)
 Theorem c20_sync_removable_not_promoted :
@@ -196,6 +210,38 @@ Theorem c20_sync_removable_not_promoted :
     forall x, In x rem -> ~ In (Some x) (map fst (b_cur b')).
 Proof. exact sync_removable_not_promoted. Qed.
 Print Assumptions c20_sync_removable_not_promoted.
+
+(* The checkpoint directories (LocalBackend.copy_checkpoint = copytree, delete_checkpoint = rmtree
+   with ignore_errors): a successful copy needs the source and a fresh target, leaves the source
+   and every other directory unchanged and makes the target equal to the source; a delete removes
+   exactly that directory. *)
+Theorem c20_fs_copy_is_copy :
+  forall f src tgt f', fs_step f (FsCopy src tgt) = Some f' ->
+    exists c, fs_get f src = Some c /\ fs_get f tgt = None /\
+              fs_get f' src = Some c /\ fs_get f' tgt = Some c /\
+              forall k, k <> tgt -> fs_get f' k = fs_get f k.
+Proof. exact fs_copy_is_copy. Qed.
+Print Assumptions c20_fs_copy_is_copy.
+
+Theorem c20_fs_delete_exact :
+  forall f i f', fs_step f (FsDelete i) = Some f' ->
+    fs_get f' i = None /\ forall k, k <> i -> fs_get f' k = fs_get f k.
+Proof. exact fs_delete_exact. Qed.
+Print Assumptions c20_fs_delete_exact.
+
+(* on disk: in every PBT run (after the fix), when a clone is copied from trial j which has reported
+   before (its script checkpoints before reporting) and is not itself a clone target, j's checkpoint
+   directory exists at that moment *)
+Theorem c20_pbt_clone_source_on_disk :
+  forall prm c its pre j t post d, speculative c = false ->
+    run (pbt_sched prm) c (init pbt0) its = pre ++ ECopy j t :: post ->
+    In (EDecision j d) pre -> (forall s, ~ In (ECopy s j) pre) ->
+    has_ckpt pre j = true.
+Proof.
+  intros prm c its pre j t post d Hs E Hd Hc.
+  exact (reported_not_deleted_on_disk pre j d Hd (pbt_clone_source_alive prm c its pre j t post Hs E) Hc).
+Qed.
+Print Assumptions c20_pbt_clone_source_on_disk.
 
 (* non-vacuity: a promotion-type run with a pause, a resume, a STOP deletion and the final
    stop_all; and a synchronous rung completion with a non-empty removable list *)
@@ -213,3 +259,21 @@ Example c20_example_sync :
               b_level := 1; b_free := 3; b_later := [(1%nat, 3%Z)]; b_done := false |} in
   snd (bracket_on_result false b 2 2%Z (Some (2 # 1)%Q)) = Some [0%Z; 2%Z].
 Proof. vm_compute. reflexivity. Qed.
+
+Example c20_example_dehb :
+  let c := {| delete_checkpoints := true; remove_callback := false; speculative := false |} in
+  let tbl := [[(2%nat, 1%Z); (1%nat, 3%Z)]; [(1%nat, 3%Z)]] in
+  filter (fun e => match e with EResume _ | EDelete _ WStop => true | _ => false end)
+    (run dehb_sched c (init (dehb0 tbl false true))
+      [ {| reports := []; completed := []; failed := []; hold := false; sugg := [tt; tt]; spec_choice := [] |};
+        {| reports := [(0%Z, (Some (2 # 1)%Q, 1%Z)); (1%Z, (Some (1 # 1)%Q, 1%Z))]; completed := []; failed := [];
+           hold := false; sugg := [tt; tt]; spec_choice := [] |};
+        {| reports := [(2%Z, (Some (5 # 1)%Q, 3%Z))]; completed := []; failed := []; hold := false; sugg := []; spec_choice := [] |} ])
+  = [EResume 1; EDelete 2 WStop].
+Proof. vm_compute. reflexivity. Qed.
+
+Example c20_example_fs :
+  fs_replay [] [(FsWrite 0 7, [(0%Z, Some 7%Z)]); (FsCopy 0 1, [(0%Z, Some 7%Z); (1%Z, Some 7%Z)]);
+                (FsCopy 0 2, [(0%Z, Some 7%Z); (2%Z, Some 7%Z)]); (FsDelete 0, [(0%Z, None); (1%Z, Some 7%Z)])] = true
+  /\ fs_step [] (FsCopy 0 1) = None.
+Proof. vm_compute. split; reflexivity. Qed.
